@@ -281,6 +281,17 @@ func (e *SutEnv) RunTx(i int) *TxResult {
 		evmI.AspectCall()
 	}
 	ctx := e.Host.Ctx()
+	{
+		opb := map[string]byte{"call": 0xf1, "callcode": 0xf2, "delegatecall": 0xf4, "staticcall": 0xfa, "create": 0xf0, "create2": 0xf5}[tx.Kind]
+		in := unhex(tx.Data)
+		to := common.Address{}
+		if opb == 0xf0 || opb == 0xf5 {
+			in = tx.initCode()
+		} else {
+			to = addr(tx.To)
+		}
+		e.L.Add(Ev{Ex: e.Ex, K: evHost, Name: "top", N: uint64(opb), From: from, To: to, Val: in, Val2: value.Bytes(), N2: gas})
+	}
 	if e.Rec != nil {
 		e.Rec.CaptureTxStart(gas)
 	}
